@@ -6,7 +6,7 @@ props = [json.loads(l) for l in open(os.path.join(HERE, "properties.jsonl"))]
 
 CLAIMED = {
  "C01": ("scratch-board probe typestate + guard dominance + constant relations",
-         "decides the structural clauses C01-EP/KING/CASTLE/FLAGS/CHECK/LABEL/PROMORANK/PROMO (probe boards, castling preconditions, move-label encoding, capture/quiet labels vs occupancy of the destination set, pawn sources split by the pre-promotion rank, four promotion kinds once each), not the exactness of the move set"),
+         "decides the structural clauses C01-EP/KING/CASTLE/FLAGS/CHECK/LABEL/PROMORANK/PROMO/ATTACKERS (attacker set = union over all piece kinds, probe boards, castling preconditions, move-label encoding, capture/quiet labels vs occupancy of the destination set, pawn sources split by the pre-promotion rank, four promotion kinds once each), not the exactness of the move set"),
  "C02": ("field-write set inclusion, save/restore dataflow, mirrored edit lists",
          "decides the structural clauses C02-UNDO/HIST/BOARD3/EDITPAIR/FORWARD (undo writes what make writes, History save/restore, three board views written together, mirrored board edits, and the forward bookkeeping tables of make_move: castling-rights loss, en-passant target/victim, promotion placement, clock reset), not exact equality of states over all histories"),
  "C03": ("mutation/toggle pairing by dominance + sibling agreement of hash and toggles",
@@ -18,13 +18,13 @@ CLAIMED = {
  "C06": ("panic-site cone of the FEN reader with alphabet/match exhaustiveness checks, width-guard dominance, inverse letter tables extracted by path-sensitive symbolic walk",
          "decides the reader's panic-freedom on arbitrary text and rank-width rejection (C06-CONE/WIDTH), reader/writer letter-table agreement (C06-TABLES) and that the scalar fields are written unconditionally from their own Game field with inverse move-number formulas (C06-FIELDS); not the round-trip equalities as such"),
  "C07": ("constant relations (N = variants), get_unchecked index provenance, numeric evaluation of extracted shift/mask pairs on all 64 squares, exhaustive enumeration of the evaluated magic constants (107,648 cases) by the analyser",
-         "decides 'every lookup lands inside its table' (C07-N/UNCHK/SQ/MAGIC), the wrap-mask mechanism (C07-WRAP) and filler/lookup agreement (C07-SAMEIDX); not that the ray walker and leaper generators compute the geometric definition"),
+         "decides 'every lookup lands inside its table' (C07-N/UNCHK/SQ/MAGIC), the wrap-mask mechanism (C07-WRAP), filler/lookup agreement (C07-SAMEIDX) and that the filler stores an entry for every blocker subset (C07-FILL); not that the ray walker and leaper generators compute the geometric definition"),
  "C08": ("guard dominance w.r.t. the PV-node flag, PV push discipline, mirrored mate-distance conversions, induction-variable provenance",
-         "decides the mechanism clauses C08-PVGUARD/PVPUSH/MATEDIST/DEPTH/MATE (no hash cut-off or forward pruning in PV nodes, guarded PV extension, mate-distance pairing, depth = iteration variable, mate only with zero legal moves), not legality or length of actual lines"),
+         "decides the mechanism clauses C08-PVGUARD/PVPUSH/MATEDIST/DEPTH/MATE/ASPWIN (root score returned only from inside the searched aspiration window, no hash cut-off or forward pruning in PV nodes, guarded PV extension, mate-distance pairing, depth = iteration variable, mate only with zero legal moves), not legality or length of actual lines"),
  "C09": ("Err-edge reachability at every recursive call site, poll dominance, type-level immutability",
          "decides the unwinding clauses C09-ERR/UNDO/POLL/IMM/FALLBACK per call site (so for every poll index at once), not the legality of later searches on the surviving tables"),
  "C10": ("provenance of yielded values, inequality-guard dominance, forward-only stage typestate",
-         "decides the necessary clauses C10-SRC/DEDUP/STAGE/LOUD (yielded moves come from the generated list or equal one of its elements, hash move never yielded twice, stages only advance, captures-only picker stays loud), not the index arithmetic of the segments"),
+         "decides the necessary clauses C10-SRC/DEDUP/STAGE/LOUD/LOUDSET (loud constructors emitted by the capture generator only, yielded moves come from the generated list or equal one of its elements, hash move never yielded twice, stages only advance, captures-only picker stays loud), not the index arithmetic of the segments"),
  "C11": ("abstract execution of the material predicate over all piece-count models (path-sensitive symbolic walk), shape and threshold of the fifty-move predicate, shape of the repetition scan, caller guards",
          "decides the clauses C11-MATERIAL/FIFTY/REPKEY/CALLERS (dead-material verdicts for every count model, `clock >= 100 && has a legal move`, full-key comparison over a clock-bounded newest-first window, both search functions consult all three predicates); not the exactness of the repetition verdict over all game histories; clauses whose code is not in a recognisable form are reported as not decided, without alarm"),
  "C12": ("effect analysis over the search call-graph cone, reset-covers-writes field sets, forward slice of clock reads, static-mut writer sets",
